@@ -51,6 +51,41 @@ class BaseWorld:
         self.dir = os.path.join(os.getcwd(), f'run{os.getpid()}_{BaseWorld._dir_counter}')
         os.makedirs(self.dir, exist_ok=True)
         self._nfile = 0
+        self._log_state = None
+        if cfg.get('debug_log'):
+            self._debug_logging_on()
+
+    def _debug_logging_on(self):
+        """log_level = DEBUG (a setting of default.conf): every logger.debug call and every
+        'if logger.isEnabledFor(DEBUG)' block of the toolbox runs; records are formatted
+        and then dropped instead of filling the scratch disk."""
+        import logging
+
+        class _Sink:
+            def write(self, _):
+                return 0
+
+            def flush(self):
+                pass
+        lg = logging.getLogger('maltoolbox')
+        handlers = [h for h in lg.handlers if isinstance(h, logging.StreamHandler)]
+        self._log_state = (lg, lg.level, [(h, h.stream) for h in handlers], logging.raiseExceptions)
+        # a record whose arguments do not fit its format (e.g. '%d' with the id None of an
+        # object that was refused) is dropped silently, as in production
+        logging.raiseExceptions = False
+        for h in handlers:
+            h.stream = _Sink()
+        lg.setLevel(logging.DEBUG)
+        self.count('knob:debug_logging')
+
+    def _debug_logging_off(self):
+        if self._log_state is not None:
+            import logging
+            lg, level, streams, logging.raiseExceptions = self._log_state
+            lg.setLevel(level)
+            for h, st in streams:
+                h.stream = st
+            self._log_state = None
 
     def path(self, name: str) -> str:
         return os.path.join(self.dir, name)
@@ -69,6 +104,7 @@ class BaseWorld:
         pass
 
     def close(self):
+        self._debug_logging_off()
         shutil.rmtree(self.dir, ignore_errors=True)
 
 
